@@ -128,6 +128,9 @@ def child_ty(it, ctx, child):
 
 
 _seen_depth = {}
+_stmt_in_expr = set()   # expression kinds whose arm generates statements (while the enclosing expression may hold pushed operands)
+_exits = {}             # (kind, class, label field) -> [verdict, message, trace]   non-local exits of gen_stmt arms
+_label_defs = {}        # (kind, label field) -> {'set': {symbol template: value text}, 'trace': [...]}
 _x87_live = {}     # (fname, kind) -> {child label: (x87 depth pending while the child is evaluated, trace)}
 _x87_seen = set()
 
@@ -154,6 +157,10 @@ def check_kind(cg, rep, rule, fname, kind, mk, ret_stmt=False, value_from_last_s
         nret += 1
         tr = Trace(ctx)
         nodes = linearise(tr)
+        if fname == 'gen_expr' and any(n[0] == 'pseudo' and n[1] == 'stmt' for n in nodes):
+            _stmt_in_expr.add(kind)
+        if fname == 'gen_stmt':
+            nodes = _nonlocal_exits(ctx, tr, nodes, kind)
         root = ctx.root
         nty = root.fields.get('ty')
         nty = it.settle(nty) if isinstance(nty, View) else nty
@@ -252,7 +259,9 @@ def run(P, rep, tier):
                        'node obeying the typing relation; recursive calls are replaced by the contract being proved (machine stack 0, x87 +1 iff long double), '
                        'so the per-kind result composes by structural induction to all programs. %rsp and x87 motion of every emitted template is summed per path.')
     rep.assumptions += ['children satisfy the contract (induction hypothesis)', 'typing relation of each kind as produced by add_type (R01.2; conditional, comma, assignment, statement expression and call nodes: R20.11, R20.10)',
-                        'instruction stack effects per Intel SDM for the mnemonics chibicc emits', 'ND_FUNCALL argument lists analysed separately (R20.3 call-site rule)']
+                        'instruction stack effects per Intel SDM for the mnemonics chibicc emits', 'ND_FUNCALL argument lists analysed separately (R20.3 call-site rule)',
+                        'R20.14: no jump INTO a statement expression (GNU C forbids it): the case labels a switch jumps to and the target of a goto emitted at depth 0 are not deeper than the jump',
+                        'R20.13: the term machine follows a run-time loop of the emitted code for one and two iterations']
     rep.rule('R20.1', 'every gen_expr arm: machine-stack effect 0 and x87 effect +1 iff the node is long double, assuming the same of its children', floor=60)
     rep.rule('R20.2', 'every gen_stmt arm: machine-stack effect 0 and x87 effect 0 (return: value left for the epilogue)', floor=12)
     rep.rule('R20.3', '`depth` bookkeeping equals emitted %rsp motion on every path', floor=40)
@@ -276,6 +285,7 @@ def run(P, rep, tier):
             rep.undecided('R20.1', '%s:gen_expr:%s' % (U, kind), 'no returning path for a kind gen_expr has an arm for')
     r_calls(cg, P, rep, tier)
     r_call_value(cg, P, rep)
+    r_value(cg, rep)
     r_ret_buffer(P, rep)
     r_typing_relation(P, rep)
     rep.rule('R20.7', 'every gen_addr arm: machine-stack effect 0 and x87 effect 0 (an address is left in %rax only), assuming the contract of its children; an operand evaluated only for its side effects is discarded there as well', floor=5)
@@ -298,6 +308,7 @@ def run(P, rep, tier):
         n = check_kind(cg, rep, 'R20.2', 'gen_stmt', kind, preset_stmt(cg, kind), ret_stmt=(kind == 'ND_RETURN'))
         if n == 0:
             rep.undecided('R20.2', '%s:gen_stmt:%s' % (U, kind), 'no returning path')
+    r_nonlocal_exits(cg, rep)
     # the x87 register stack is empty whenever an operand, sub-statement or address is generated: the operand may contain a call, the callee needs
     # all eight registers (psABI 3.2.3: empty on entry), and in a recursive function every pending value costs one register per activation
     rep.rule('R20.12', 'no arm of gen_expr / gen_stmt / gen_addr holds a value on the x87 register stack while it generates one of its children (a pending value is spilled to memory first): with the contract of R20.1 this makes the x87 stack empty at every call instruction, so recursion depth and callees cannot overflow it', floor=45)
@@ -794,3 +805,383 @@ def preset_stmt(cg, kind):
             ctx.globals['current_fn'] = fn
         return n
     return mk
+
+
+# ------------------------------------------------------------------------------------------------ R20.13: the value that is left ---
+VALUE_CATS = ('bool', 'char', 'uchar', 'short', 'ushort', 'int', 'uint', 'long', 'ulong', 'enum', 'ptr', 'float', 'double', 'ldouble', 'struct', 'union')
+
+
+class _flag_machine:
+    """the shared term machine does not model the flags of inc/dec (the unchanged tree emits no branch on them); a run-time loop counted
+    by `dec; jne` needs them. Inside the `with` block lib_sem.run_paths uses a machine that sets them (Intel SDM: inc/dec set ZF/SF
+    from the result)."""
+    def __enter__(self):
+        from .. import lib_sem
+        from ..x86 import Machine
+
+        class VM(Machine):
+            def i_inc(self, s, ops, mn='inc'):
+                Machine.i_inc(self, s, ops, mn)
+                w = self.opw(mn, 'inc', ops)
+                s.flags = ('res', w, self.val(s, ops[0], w))
+
+            def i_dec(self, s, ops, mn='dec'):
+                Machine.i_dec(self, s, ops, mn)
+                w = self.opw(mn, 'dec', ops)
+                s.flags = ('res', w, self.val(s, ops[0], w))
+        self.lib, self.old = lib_sem, lib_sem.Machine
+        lib_sem.Machine = VM
+        return self
+
+    def __exit__(self, *a):
+        self.lib.Machine = self.old
+        return False
+
+
+def _linform(t):
+    """64-bit term as a linear combination {atom: coefficient} + constant (add/sub chains flattened); None when t is not a tuple"""
+    if not isinstance(t, tuple):
+        return None
+    atoms, const = {}, 0
+    st = [(t, 1)]
+    while st:
+        x, c = st.pop()
+        if isinstance(x, tuple) and x[0] == 'c':
+            const += c * x[1]
+        elif isinstance(x, tuple) and x[0] == 'bin' and x[1] in ('add', 'sub') and x[2] == 64:
+            st.append((x[3], c)); st.append((x[4], c if x[1] == 'add' else -c))
+        else:
+            atoms[x] = atoms.get(x, 0) + c
+    return {a: c for a, c in atoms.items() if c}, const % (1 << 64)
+
+
+def _has_sym(t):
+    if isinstance(t, tuple):
+        return t[0] == 'immsym' or any(_has_sym(x) for x in t[1:])
+    return False
+
+
+def _same_value(got, want):
+    """(verdict, text): True equal | False definitely another value | None cannot tell (differs by a symbolic immediate)"""
+    from ..lib_sem import canon
+    if got == want or canon(got) == canon(want):
+        return True, ''
+    lg, lw = _linform(got), _linform(want)
+    if lg is None or lw is None:
+        return False, 'is %r' % (got,)
+    d = dict(lg[0])
+    for a, c in lw[0].items():
+        d[a] = d.get(a, 0) - c
+    d = {a: c for a, c in d.items() if c}
+    k = (lg[1] - lw[1]) % (1 << 64)
+    if not d:
+        if k == 0:
+            return True, ''
+        return False, 'is that value %+d' % (k if k < (1 << 63) else k - (1 << 64))
+    if all(_has_sym(a) for a in d):
+        return None, 'differs from it by a quantity that depends on a symbolic immediate (%r)' % (sorted(d, key=repr)[:2],)
+    return False, 'is %r' % (got,)
+
+
+def _value_preset(cg, kind, cat):
+    """abstract node of a value-forwarding kind whose designated operand has type class `cat`"""
+    def mk(ctx):
+        n = cg.node('node', kind)
+        t = cg.tcell('ty', only=(cat,))
+        n.fields['ty'] = t
+        if kind == 'ND_ASSIGN':
+            n.fields['lhs'] = cg.node('lhs', ty=t, kind='ND_VAR')      # a plain object; bit-field members: C04 R04.2
+            n.fields['rhs'] = cg.node('rhs', ty=t)
+        elif kind == 'ND_COMMA':
+            n.fields['lhs'] = cg.node('lhs', ty=cg.tcell('lty', only=('int',)))
+            n.fields['rhs'] = cg.node('rhs', ty=t)
+        elif kind == 'ND_COND':
+            n.fields['cond'] = cg.node('cond', ty=cg.tcell('cty', only=('int',)))
+            n.fields['then'] = cg.node('then', ty=t)
+            n.fields['els'] = cg.node('els', ty=t)
+        elif kind == 'ND_STMT_EXPR':
+            last = cg.node('last', 'ND_EXPR_STMT', lhs=cg.node('last.lhs', ty=t), next=0)
+            n.fields['body'] = cg.node('first', next=last) if ctx.choose(2, 'statement expression with one / several statements') else last
+        return n
+    return mk
+
+
+# kind -> (labels of the operands whose value is the value of the node, what C11/GNU C prescribe)
+VALUE_OF = {
+    'ND_ASSIGN': (('rhs',), 'the value of an assignment expression is the value stored (C11 6.5.16p3); for a struct or union the address of an object holding it'),
+    'ND_COMMA': (('rhs',), 'the value of a comma expression is the value of its right operand (C11 6.5.17p2)'),
+    'ND_COND': (('then', 'els'), 'the value of a conditional expression is the value of the operand that was evaluated (C11 6.5.15p4)'),
+    'ND_STMT_EXPR': (('last.lhs', 'last'), 'the value of a statement expression is the value of its last expression statement'),
+}
+
+
+def r_value(cg, rep):
+    """R20.1 counts what an arm leaves on the two stacks; this rule decides WHICH value it leaves. For the kinds whose value is by definition
+    the value of one of their operands, the emitted code is run on the term machine for every type class of that operand (aggregates with
+    a symbolic size, so that every size class the generator distinguishes is a path): after the operand has been evaluated nothing may
+    change the place its value lives in - %rax (integers, pointers, the address of an aggregate), %xmm0, %st(0)."""
+    from ..lib_sem import run_paths, child_value, FP, INTSZ, canon
+    from ..x86 import lo, Unknown
+    rep.rule('R20.13', 'every arm of gen_expr whose value is the value of one of its operands (assignment, comma, conditional, statement expression) leaves exactly that value where the contract puts it - %rax (integer, pointer, address of the aggregate), %xmm0 (float, double), %st(0) (long double) - for every type class and every aggregate size class: the stores, copies and jumps emitted after the operand do not disturb it', floor=50)
+    where = '%s:%d' % (U, cg.cu.fn('gen_expr').line)
+    handled = expr_kinds_handled(cg)
+    for kind in sorted(VALUE_OF):
+        if kind not in handled:
+            continue
+        names, text = VALUE_OF[kind]
+        for cat in VALUE_CATS:
+            key = '%s:gen_expr:%s/%s:value' % (U, kind, cat)
+            try:
+                with _flag_machine():
+                    pack = run_paths(cg, 'gen_expr', _value_preset(cg, kind, cat))
+            except AnalysisBroken as e:
+                rep.undecided('R20.13', key, 'not explorable: %s' % e, where=where); continue
+            verdicts = {}       # problem tag -> (ok|None, message, facts)
+            n = 0
+            for ctx, tr, finals, cats, it in pack:
+                if isinstance(finals, Exception):
+                    verdicts.setdefault('machine', (None, 'emitted code not interpretable: %s' % finals, {'trace': tr.text()[-40:]}))
+                    continue
+                for s in finals:
+                    n += 1
+                    ev = [e for e in s.events if e[0] == 'eval']
+                    if not ev or ev[-1][2] not in names:
+                        verdicts.setdefault('operand-order', (False, 'the last operand evaluated is %s, not the operand whose value the node has (%s)' % (ev[-1][2] if ev else 'none', '/'.join(names)), {'trace': tr.text()[-40:]}))
+                        continue
+                    name, pk = ev[-1][2], ev[-1][1]
+                    facts = {'trace': tr.text()[-40:], 'path_condition': [repr(c) for c in s.cond][:6]}
+                    if pk == 'stmt':
+                        v, why = _same_value(s.reg['rax'], ('clobber', 'rax', name))
+                        x0 = s.xmm.get(0)
+                        if v and not (x0 is None or x0 == ('clobber', 'xmm0', name)):
+                            v, why = False, '(%%xmm0) is %r' % (x0,)
+                        if v and s.st:
+                            v, why = False, 'has %d more value(s) on the x87 stack' % len(s.st)
+                        place = 'what the last statement left in %rax/%xmm0/%st(0)'
+                    else:
+                        c = cats.get(name, cat)
+                        loc, term = child_value(name, c)
+                        if loc == 'rax':
+                            w = 64 if (c not in INTSZ or INTSZ[c] == 8) else 32
+                            v, why = _same_value(lo(w, s.reg['rax']), lo(w, term))
+                            place = '%rax'
+                        elif loc == 'xmm0':
+                            got = s.xmm.get(0)
+                            v, why = (got == term), 'is %r' % (got,)
+                            place = '%xmm0'
+                        else:
+                            v, why = (s.st == [term]), 'x87 stack is %r' % (s.st,)
+                            place = '%st(0)'
+                    if v is True:
+                        continue
+                    tag = 'value-changed' if v is False else 'value-unknown'
+                    verdicts.setdefault(tag, (v, 'after the operand `%s` was evaluated the emitted code changes %s: at the end of the arm it %s instead of the value of `%s`' % (name, place, why, name), facts))
+            if n == 0 and not verdicts:
+                rep.undecided('R20.13', key, 'no returning path / no emitted code for this kind and type class', where=where); continue
+            bad = {t: v for t, v in verdicts.items() if v[0] is False}
+            unk = {t: v for t, v in verdicts.items() if v[0] is None}
+            if not bad and not unk:
+                rep.ob('R20.13', key, True, '', where=where, facts={'final_states': n})
+            for t, v in sorted(bad.items()):
+                rep.ob('R20.13', key + ':' + t, False, '%s of %s: %s. %s' % (kind, cat, v[1], text), where=where, facts=v[2])
+            if not bad:
+                for t, v in sorted(unk.items()):
+                    rep.undecided('R20.13', key + ':' + t, '%s of %s: %s' % (kind, cat, v[1]), where=where)
+    # lvalues of aggregate type: the value of the expression is the address of the object, i.e. what gen_addr leaves for the same node
+    def lv_preset(kind, cat):
+        def mk(ctx):
+            n = cg.node('node', kind)
+            t = cg.tcell('ty', only=(cat,))
+            n.fields['ty'] = t
+            if kind == 'ND_VAR':
+                v = Obj('Obj', lazy=True, label='var')
+                v.fields.update({'is_local': 1, 'offset': Sym('voff', 'int'), 'ty': t})
+                n.fields['var'] = v
+            elif kind == 'ND_MEMBER':
+                m = Obj('Member', lazy=True, label='mem')
+                m.fields.update({'offset': Sym('off', 'int'), 'ty': t, 'is_bitfield': 0})
+                n.fields['member'] = m
+                n.fields['lhs'] = cg.node('base')
+            else:
+                n.fields['lhs'] = cg.node('lhs', ty=cg.ptr_to(t, 'pty'))
+            return n
+        return mk
+    ahandled = expr_kinds_handled(cg, 'gen_addr')
+    for kind in ('ND_DEREF', 'ND_MEMBER', 'ND_VAR'):
+        if kind not in handled or kind not in ahandled:
+            continue
+        for cat in ('array', 'struct', 'union'):
+            key = '%s:gen_expr:%s/%s:value-is-the-address' % (U, kind, cat)
+            res = {}
+            broken = None
+            for fname in ('gen_expr', 'gen_addr'):
+                vals = set()
+                try:
+                    with _flag_machine():
+                        pack = run_paths(cg, fname, lv_preset(kind, cat))
+                except AnalysisBroken as e:
+                    broken = str(e); break
+                for ctx, tr, finals, cats, it in pack:
+                    if isinstance(finals, Exception):
+                        broken = 'emitted code not interpretable: %s' % finals; break
+                    for s in finals:
+                        vals.add((canon(s.reg['rax']), len(s.stores), len(s.stack), len(s.st)))
+                res[fname] = vals
+            if broken or not res.get('gen_expr') or not res.get('gen_addr'):
+                rep.undecided('R20.13', key, broken or 'no returning path', where=where); continue
+            ok = res['gen_expr'] == res['gen_addr'] and all(v[1:] == (0, 0, 0) for v in res['gen_expr'])
+            rep.ob('R20.13', key, ok, 'the value of an lvalue of %s type (%s) is the address of the object: gen_expr leaves %r in %%rax (with stores, pushed slots, x87 values), gen_addr of the same node %r' % (cat, kind, sorted(res['gen_expr'], key=repr)[:2], sorted(res['gen_addr'], key=repr)[:2]), where=where)
+
+
+# ------------------------------------------------------------------------------------ R20.14: jumps that leave a statement expression ---
+import re as _re
+_ROOT_FIELD = _re.compile(r'^\{node\.([A-Za-z_]\w*)\}$')
+
+
+def _mentions_depth(text):
+    return 'depth0' in text
+
+
+def _nonlocal_exits(ctx, tr, nodes, kind):
+    """one path of a gen_stmt arm: classify every jump whose target the arm does not define itself and record whether what the enclosing
+    expressions have pushed (`depth` slots; the arm is explored at a symbolic depth) is released before it. Returns the nodes without the
+    release instruction: it is not part of the arm's own balance (R20.2 / R20.3), it belongs to the jump."""
+    from ..chibi import parse_ins, JCC
+    defined = {n[1] for n in nodes if n[0] == 'label'}
+    d0 = ctx.bounds.get(Sym('depth0', 'int').key())
+    depth_is_zero = bool(d0) and list(d0) == [0, 0]
+    out = list(nodes)
+    # label definitions by a field of the node, and the assembler symbols set in the same arm
+    sets = {}
+    for n in nodes:
+        if n[0] == 'ins':
+            m = _re.match(r'^\.set\s+([^,]+),\s*(.+)$', n[1].strip())
+            if m:
+                sets[m.group(1).strip()] = m.group(2).strip()
+    for n in nodes:
+        if n[0] == 'label':
+            m = _ROOT_FIELD.match(n[1])
+            if m:
+                _label_defs.setdefault((kind, m.group(1)), []).append({'label': n[1], 'sets': dict(sets), 'trace': tr.text()[-14:]})
+    for i, n in enumerate(nodes):
+        if n[0] != 'ins':
+            continue
+        ins = parse_ins(n[1])
+        if ins is None or not (ins[0] == 'jmp' or ins[0] in JCC) or not ins[1]:
+            continue
+        t = ins[1][0]
+        if t in defined or _re.match(r'^\d+[fb]$', t):
+            continue
+        if t.startswith('*'):
+            cls, fld = 'indirect', 'computed'
+        elif t.startswith('.L.return'):
+            cls, fld = 'epilogue', 'return'
+        else:
+            m = _ROOT_FIELD.match(t)
+            if m:
+                cls, fld = 'named', m.group(1)       # the node only names its target: any statement of the function
+            else:
+                cls, fld = 'descendant', _re.sub(r'[^A-Za-z_.]', '', t).replace('node.', '')
+        verdict, msg = True, ''
+        if cls in ('named', 'indirect'):
+            rel = None
+            for j in range(i - 1, -1, -1):
+                if nodes[j][0] != 'ins':
+                    continue
+                r, x, known = stack_effect(nodes[j][1])
+                if isinstance(r, tuple):
+                    rel = (j, r, nodes[j][1]); break
+            if rel is not None and rel[1][0] == 'sym' and rel[1][1].startswith('add') and _mentions_depth(rel[1][2]):
+                out[rel[0]] = ('ins', '')
+                # add $(8*depth) - S(label): the bytes pushed here minus the bytes pushed at the target, the latter as a symbol of the target
+                op = rel[1][2]
+                m2 = _re.match(r'^\$\{\(8\*depth0\)\}-(.+)$', op.replace(' ', ''))
+                m3 = _re.match(r'^\$\{\((\d+)\*depth0\)\}-(.+)$', op.replace(' ', ''))
+                if cls == 'named' and m2 and t in m2.group(1):
+                    verdict, msg = True, ('symbol', m2.group(1).replace(t, '<label>'))
+                elif m3 and m3.group(1) != '8':
+                    verdict, msg = False, 'the release `%s` before the jump counts %s bytes per pushed slot; a slot of `depth` is 8 bytes (R20.3)' % (rel[2].strip(), m3.group(1))
+                else:
+                    verdict, msg = None, 'the release `%s` before the jump is not of the form 8*depth minus a symbol of the target label; whether it brings %%rsp to the level of the target cannot be decided' % rel[2]
+            elif rel is not None:
+                verdict, msg = None, '%%rsp is changed by `%s` before the jump; whether this is the level of the target cannot be decided' % rel[2]
+            elif depth_is_zero:
+                verdict, msg = True, ''
+            else:
+                verdict, msg = False, ('`%s` is emitted without releasing what the enclosing expressions have pushed (the arm never looks at `depth`): a statement inside a statement expression is generated while '
+                                       'the operands of the enclosing expression are on the stack' % n[1].strip())
+        cur = _exits.get((kind, cls, fld))
+        rank = {True: 0, None: 1, False: 2}
+        if cur is None or rank[verdict] > rank[cur[0]] or (verdict is True and isinstance(msg, tuple)):
+            _exits[(kind, cls, fld)] = [verdict, msg, tr.text()[-14:]]
+    return [n for n in out if not (n[0] == 'ins' and n[1] == '')]
+
+
+def _epilogue_restores_rsp(cg):
+    """the text printed right after the `.L.return.<fn>:` label resets %rsp from the frame pointer (so a `return` may leave with anything pushed)"""
+    for fname, fd in cg.cu.functions.items():
+        fmts = []
+        for c in fd.walk():
+            if c.kind == 'CallExpr' and c.callee() == 'println' and c.args():
+                try:
+                    fmts.append(c.args()[0].str_value())
+                except Exception:
+                    fmts.append(None)
+        for i, f in enumerate(fmts):
+            if isinstance(f, str) and f.startswith('.L.return.') and f.rstrip().endswith(':'):
+                nxt = fmts[i + 1] if i + 1 < len(fmts) else None
+                return isinstance(nxt, str) and _re.sub(r'\s+', ' ', nxt.strip()) == 'mov %%rbp, %%rsp', fname
+    return None, None
+
+
+def r_nonlocal_exits(cg, rep):
+    """R20.1/R20.2 are contracts of arms that are left by falling through. A statement inside a statement expression is generated while the
+    enclosing expression may hold pushed operands (`1 + ({ if (c) continue; 2; })`, pushed call arguments, a spilled long double); a jump that
+    leaves it - break, continue, goto, computed goto, return - skips the pops of the enclosing expression, so the jump itself must bring
+    %rsp to the level of its target. gen_stmt is explored at a symbolic `depth`, so an arm that does not look at `depth` cannot do that."""
+    rep.rule('R20.14', 'a jump that leaves a statement (break/continue/goto, computed goto, return) is generated correctly at every `depth`: it releases the bytes the enclosing expressions have pushed beyond the level of its target (statements occur inside statement expressions that are operands of unfinished expressions), or its target resets %rsp from the frame; otherwise every such jump in a loop leaks stack', floor=4)
+    fn = cg.cu.fn('gen_stmt')
+    where = '%s:%d' % (U, fn.line)
+    moot = not _stmt_in_expr
+    schemes = set()
+    for (kind, cls, fld), (verdict, msg, trace) in sorted(_exits.items()):
+        base = '%s:gen_stmt:%s:' % (U, kind)
+        if cls == 'descendant':
+            # the target is a statement linked from this node (case labels of a switch): part of this statement, generated at the same depth
+            rep.ob('R20.14', base + 'jump-to-%s:target-inside-this-statement' % fld, True, '', where=where)
+            continue
+        if cls == 'epilogue':
+            ok, fname = _epilogue_restores_rsp(cg)
+            key = base + 'jump-to-epilogue:epilogue-resets-rsp-from-frame'
+            if ok is None:
+                rep.undecided('R20.14', key, 'the code printed after the .L.return label was not found', where=where)
+            else:
+                rep.ob('R20.14', key, ok or moot, 'a return jumps to the epilogue with operands of enclosing expressions still pushed, but the code after `.L.return.<fn>:` (in %s) does not start with `mov %%rbp, %%rsp`' % fname, where=where)
+            continue
+        key = base + ('jump-to-%s' % fld if cls == 'named' else 'indirect-jump') + ':releases-pushed-operands'
+        if verdict is False and isinstance(msg, str) and msg.startswith('the release '):
+            key += ':bytes-per-slot'
+        if isinstance(msg, tuple):
+            schemes.add(msg[1]); msg = ''
+        if verdict is None and not moot:
+            rep.undecided('R20.14', key, msg, where=where)
+        else:
+            rep.ob('R20.14', key, bool(verdict) or moot,
+                   '%s of gen_stmt: %s. Each execution leaves 8 bytes per pushed operand (24 for a spilled long double) on the stack: `for (...) x = 1 + ({ if (c) continue; 2; });` overflows the stack' % (kind, msg),
+                   where=where, facts={'trace': trace, 'statements_generated_by_expression_kinds': sorted(_stmt_in_expr)})
+    # when jumps subtract a symbol of the target label, every arm that defines a label a node can name must set that symbol to 8*depth
+    linked = {fld.split('.')[-1] for (kind, cls, fld) in _exits if cls == 'descendant'}     # labels reached through a link from the jumping node (case labels): never named by a goto
+    for scheme in sorted(schemes):
+        for (kind, fld), defs in sorted(_label_defs.items()):
+            if fld in linked:
+                continue
+            key = '%s:gen_stmt:%s:label-%s:records-its-depth' % (U, kind, fld)
+            bad = None
+            for d in defs:
+                sym = scheme.replace('<label>', d['label'])
+                v = d['sets'].get(sym)
+                if v is None or v.replace(' ', '') != '{(8*depth0)}':
+                    bad = (sym, v, d['trace'])
+            rep.ob('R20.14', key, bad is None, 'jumps release `8*depth - %s`, but %s of gen_stmt defines the label `%s` %s: the jump releases the wrong number of bytes (or the output does not assemble)'
+                   % (scheme, kind, fld, ('without setting that symbol before the label' if bad and bad[1] is None else 'with the symbol set to %s instead of 8*depth' % (bad[1] if bad else ''))), where=where,
+                   facts={'trace': bad[2] if bad else []})
